@@ -45,6 +45,13 @@ mixed do_op (string s) {
     handles[w[3]] = r;
     VL (VNOW + " r co " + oid + " " + w[1] + " " + w[2] + " " + w[3] + " " + r);
     break;
+  case "cofp": { // cofp <f> <delay> <tag>: function-pointer call_out (cop->ob == 0 in call_out.c)
+    function *fps = ({ (: co0 :), (: co1 :), (: co2 :), (: co3 :) });
+    r = call_out (fps[to_int (w[1])], to_int (w[2]), w[3]);
+    handles[w[3]] = r;
+    VL (VNOW + " r cofp " + oid + " " + w[1] + " " + w[2] + " " + w[3] + " " + r);
+    break;
+  }
   case "rmh":  // remove by handle of tag
     r = remove_call_out (handles[w[1]]);
     VL (VNOW + " r rmh " + oid + " " + w[1] + " " + r);
@@ -78,7 +85,8 @@ mixed do_op (string s) {
     mixed *inf = call_out_info ();
     mixed *rows = ({ });
     string t = "";
-    foreach (mixed *e in inf) rows += ({ ({ "/vreg"->oid_of (e[0]), e[1], e[2] }) });
+    // rows of function-pointer call_outs whose owner is destructed carry 0 as object: dropped here
+    foreach (mixed *e in inf) if (objectp (e[0])) rows += ({ ({ "/vreg"->oid_of (e[0]), e[1], e[2] }) });
     rows = sort_array (rows, "cmp_info");
     foreach (mixed *e in rows) t += " " + e[0] + "/" + e[1] + "/" + e[2];
     VL (VNOW + " r info" + t);
